@@ -235,6 +235,11 @@ def ite(c, a, b):
         return a
     if z3.is_false(c):
         return b
+    # an empty `Vec::new()` merged with a byte vector: the empty byte string
+    if isinstance(a, VVec) and not a.items and isinstance(b, VStr):
+        a = VStr(bstr.lit(""))
+    if isinstance(b, VVec) and not b.items and isinstance(a, VStr):
+        b = VStr(bstr.lit(""))
     if isinstance(a, VStr) and isinstance(b, VStr):
         return VStr(bstr.ite(c, a.e, b.e))
     if isinstance(a, VChar) and isinstance(b, VChar):
@@ -963,6 +968,10 @@ class Interp:
 
     def e_try(self, e, env, pc):
         v, env, pc = self.eval(e["expr"], env, pc)
+        if isinstance(v, VUninit):
+            # the value of a call that was not executed: unreachable, or cut by the recursion bound (the unwinding obligation
+            # recorded there makes the run inconclusive if that path is reachable); nothing continues from here
+            return VUninit(), env, z3.BoolVal(False)
         if not isinstance(v, VEnum) or v.ty not in ("Option", "Result"):
             raise Unsupported("? on " + type(v).__name__)
         if v.ty == "Option":
@@ -1845,6 +1854,19 @@ def m_iter_zip(I, it, args, pc, e):
     return VIter(VVec([VTuple([a.items[i], o.items[i]]) for i in range(k)], n))
 
 
+def m_iter_fold(I, it, args, pc, e):
+    """Iterator::fold(init, |acc, x| ..)"""
+    vec = it.vec if isinstance(it, VIter) else it
+    acc = args[0]
+    for i, x in enumerate(vec.items):
+        live = z3.And(pc, ugt(vec.n, bv(i)))
+        if z3.is_false(z3.simplify(live)):
+            break
+        nxt = I.call_closure(args[1], [acc, x], live)
+        acc = ite(ugt(vec.n, bv(i)), nxt, acc)
+    return acc
+
+
 def m_iter_filter(I, it, args, pc, e):
     """Iterator::filter of which only `.count()` is modelled: the number of elements satisfying the predicate"""
     vec = it.vec if isinstance(it, VIter) else it
@@ -1858,6 +1880,24 @@ def m_iter_filter(I, it, args, pc, e):
             raise Unsupported("closure in filter must return bool")
         n = n + z3.If(z3.And(ugt(vec.n, bv(i)), r.e), bv(1), bv(0))
     return VCount(n)
+
+
+def m_str_split_at(I, s, args, pc, e):
+    """<[u8]>::split_at(mid): panics when mid > len"""
+    mid = args[0].e
+    I.panic(z3.And(pc, ugt(mid, s.e.n)), "split_at: mid > len at line %s" % e.get("line"))
+    return VTuple([VStr(bstr.substr(s.e, bv(0), mid)), VStr(bstr.substr(s.e, mid, s.e.n - mid))])
+
+
+def m_str_last(I, s, args, pc, e):
+    n = s.e.n
+    return opt(ugt(n, bv(0)), VChar(bstr.at(s.e, n - bv(1))))
+
+
+def m_str_pop(I, s, args, pc, e):
+    n = s.e.n
+    nonempty = ugt(n, bv(0))
+    return Effects(opt(nonempty, VChar(bstr.at(s.e, n - bv(1)))), recv=VStr(BStr(s.e.b, z3.If(nonempty, n - bv(1), n))))
 
 
 def m_vec_insert(I, v, args, pc, e):
@@ -2172,6 +2212,7 @@ def m_split_whitespace(I, s, args, pc, e):
 
 METHODS = {
     ("VStr", "to_ascii_lowercase"): m_to_ascii_lowercase,
+    ("VStr", "to_lowercase"): m_to_ascii_lowercase,  # ASCII inputs (format names, labels)
     ("VStr", "eq_ignore_ascii_case"): m_eq_ignore_ascii_case,
     ("VStr", "split"): m_split,
     ("VStr", "rsplit_once"): m_rsplit_once,
@@ -2188,6 +2229,9 @@ METHODS = {
     ("VRsplitHead", "next"): lambda I, s, a, pc, e: some(s.last),
     ("VCount", "count"): lambda I, s, a, pc, e: VInt(s.n),
     ("VStr", "len"): m_len_str,
+    ("VStr", "split_at"): m_str_split_at,
+    ("VStr", "last"): m_str_last,
+    ("VStr", "pop"): m_str_pop,
     ("VStr", "truncate"): lambda I, s_, a, pc, e: Effects(VUnit(), recv=VStr(BStr(s_.e.b, z3.If(ult(a[0].e, s_.e.n), a[0].e, s_.e.n)))),
     ("VStr", "try_into"): lambda I, s, a, pc, e: ok(s),
     ("VInt", "try_into"): lambda I, s, a, pc, e: ok(s),
@@ -2231,6 +2275,7 @@ METHODS = {
     ("VIter", "count"): m_count,
     ("VIter", "filter"): m_iter_filter,
     ("VIter", "zip"): m_iter_zip,
+    ("VIter", "fold"): m_iter_fold,
     ("VStr", "iter"): m_bytes,
     ("VIter", "take_while"): m_iter_take_while,
     ("VIter", "skip_while"): lambda I, it, a, pc, e: (_ for _ in ()).throw(Unsupported("skip_while")),
